@@ -446,43 +446,186 @@ theorem C03_shipped_vectors :
 
 `Model/MpclSsa.lean` `ssaEval` evaluates the real compiler's SSA step lists
 (tied three-way, on every generated program and input, to the source
-interpreter and to the compiled circuit by checks/C03.py).  On the
-straight-line fragment the two Lean semantics are PROVED to agree through a
-Lean model `Ssa.lower` of ssagen.go. -/
+interpreter and to the compiled circuit by checks/C03.py).  On the scalar
+fragment the two Lean semantics are PROVED to agree through a Lean model
+`Ssa.lower` (`Model/MpclLower.lean`) of ssagen.go; `lower` itself is run next
+to the REAL ssagen on every check (mode `c03 lower`, driver op `LOWER`). -/
 
 open Mpc.Mpcl.Ssa in
 /-- Full statement (not proved): for every program `p` of the subset and every
 input `x`, `ssaEval (ssagen p) x = runRaw p x` where `ssagen` is the real
-AST -> SSA translation.  Proved here: the same with `Ssa.lower`, a Lean model
-of ssagen.go, for functions `func(params intN/uintN) { stmts; return es }` with
-`stmts ::= var x T = e | x = e` and `e ::= x | e + e | e - e | e & e | e | e |
-e ^ e | T(e)` (T(e) except intN -> wider uintM, where the real compiler's `mov`
-zero-extends: known deviation).  Missing: literals and constants, `* / % &^`,
-shifts, comparisons, booleans, if/for/calls, arrays, structs; the tie of
-`lower` to the real ssagen is differential only. -/
-theorem C03_ssa_lower_correct_partial (params : List (String × Ty)) (stmts : List Stmt) (es : List Expr)
-    (ins : List (Nat × Nat)) (steps : List SInstr) (h : lower params stmts es = some (ins, steps))
-    (args : List Nat) (hlen : args.length = params.length) :
-    ∃ r, ssaEval (Nat → Nat) ins steps args = some r ∧
-      ∃ f, runRaw [⟨params, es.length, stmts ++ [.ret es]⟩] f 0 args = some r :=
-  lower_correct_partial params stmts es ins steps h args hlen
+AST -> SSA translation.
+
+Proved here: the same with `Ssa.lower`, the Lean model of ssagen.go, for every
+function of the fragment
+
+    types   T ::= bool | intN | uintN
+    expr    e ::= x | n | true | false | i (loop constant) | T(n) | T(i)
+                | e + e | e - e | e * e | e / e | e % e | e & e | e | e | e ^ e | e &^ e
+                | e << k | e >> k | e < e | e <= e | e > e | e >= e | e == e | e != e
+                | e && e | e || e | !e | -e | T(e)
+    stmt    s ::= var x T | var x T = e | x := e | x = e
+                | if e { s* } [else { s* }]      (also with `return` inside)
+                | for i := lo; i <cmp> hi; i += st { s* }      (unrolled)
+                | return e, .., e
+    func      ::= func(params) { s* }     every path ends in `return`
+
+(`lower fuel fn = some ..` IS the fragment predicate; it is decidable and
+contains the side conditions below), and every input:
+  (1) if the SSA program evaluates — the only way it cannot is a division by
+      zero in the straight-line code, on a taken or an untaken path — the
+      reference interpreter is defined and gives the same outputs;
+  (2) without `/ %` in the source the SSA program always evaluates, so both
+      semantics are defined and equal.
+`/ %` therefore carry the guard "no zero divisor on any path" as the
+hypothesis of (1) (the generator only emits divisors `e | 1` and non-zero
+literals).
+
+Side conditions inside `lower` (each excludes exactly one known deviation of
+the real compiler from the reference semantics, /verif/known_findings.json):
+  * `T(e)` from intN to a WIDER uintM is not in the fragment: the real `mov`
+    zero-extends (C03-cast-int-to-wider-uint);
+  * a literal at a signed type intN must be `< 2^(N-1)`, and a literal whose own
+    32/64-bit constant has its top bit set may not be used at a wider signed
+    type (`litOk`: literal signedness, C03-const-signed-widening);
+  * all declared names (parameters, `var`, `:=`, loop variables) are pairwise
+    distinct and no `:=` occurs in a `for` body (`scopeOk`: MPCL's function-level
+    scoping, C03-inner-block-redeclaration, C03-define-redeclared-rejected);
+  * loop variables take values in `0 .. 2^31-1`; an `if` condition and at least
+    one operand of every operator are not constants (constant folding is C12).
+
+Missing: arrays, structs, calls, assignment to elements/fields, non-constant
+folding; `lower` creates the merge phis eagerly where the real compiler creates
+them lazily at the first use (same values; structural drift is reported by the
+tie as advisory), and it is tied to the real ssagen differentially (every run),
+not by proof. -/
+theorem C03_ssa_lower_correct_partial (fuel : Nat) (fn : Func) (ins : List (Nat × Nat)) (steps : List SInstr)
+    (h : lower fuel fn = some (ins, steps)) (args : List Nat) (hlen : args.length = fn.params.length) :
+    (∀ res, ssaEval (Nat → Nat) ins steps args = some res → ∃ f, runRaw [fn] f 0 args = some res) ∧
+    (noDivB fn.body = true →
+      ∃ res, ssaEval (Nat → Nat) ins steps args = some res ∧ ∃ f, runRaw [fn] f 0 args = some res) :=
+  lower_correct_partial fuel fn ins steps h args hlen
+
+/-! Non-vacuity: a concrete function of the fragment for every construct;
+`lower` succeeds and both semantics are evaluated by the kernel. -/
+
+/-- Both semantics on one input: `ssaEval (lower fn)` and `runRaw fn`. -/
+def bothSem (fn : Func) (args : List Nat) : Option (List (Nat × Nat)) × Option (List (Nat × Nat)) :=
+  ((Ssa.lower 40 fn).bind fun r => Ssa.ssaEval (Nat → Nat) r.1 r.2 args, runRaw [fn] 60 0 args)
 
 /-- `func(a int8, b uint4) (int8, uint4) { var x int8 = a + int8(b); x = x ^ a;
-return x - a, uint4(x) & b }` is in the fragment: `lower` succeeds (8 steps). -/
-def exFragParams : List (String × Ty) := [("a", .int 8), ("b", .uint 4)]
-def exFragStmts : List Stmt :=
+return x - a, uint4(x) & b }` (the straight-line fragment of the first version). -/
+def exFrag : Func := ⟨[("a", .int 8), ("b", .uint 4)], 2,
   [.decl "x" (.int 8) (some (.bin .add (.var "a") (.cast (.int 8) (.var "b")))),
-   .assign [⟨"x", []⟩] (.bin .bxor (.var "x") (.var "a"))]
-def exFragRet : List Expr :=
-  [.bin .sub (.var "x") (.var "a"), .bin .band (.cast (.uint 4) (.var "x")) (.var "b")]
+   .assign [⟨"x", []⟩] (.bin .bxor (.var "x") (.var "a")),
+   .ret [.bin .sub (.var "x") (.var "a"), .bin .band (.cast (.uint 4) (.var "x")) (.var "b")]]⟩
 
-example : ((Ssa.lower exFragParams exFragStmts exFragRet).map fun r => (r.1, r.2.length)) =
-    some ([(0, 8), (1, 4)], 11) := by decide +kernel
+/-- Literals and typed constants, `* &^`:
+`func(a uint8, b int8) (uint8, int8, bool) { var x uint8 = 200; x = x + a * 3; return x &^ 15, b - 5, true }` -/
+def exLit : Func := ⟨[("a", .uint 8), ("b", .int 8)], 3,
+  [.decl "x" (.uint 8) (some (.lit (.uint 8) 200)),
+   .assign [⟨"x", []⟩] (.bin .add (.var "x") (.bin .mul (.var "a") (.lit (.uint 8) 3))),
+   .ret [.bin .bclr (.var "x") (.lit (.uint 8) 15), .bin .sub (.var "b") (.lit (.int 8) 5), .lit .bool 1]]⟩
 
-example : (Ssa.lower exFragParams exFragStmts exFragRet).bind
-      (fun r => Ssa.ssaEval (Array Nat) r.1 r.2 [0xf0, 0x9]) = some [(0x19, 8), (0x9, 4)] ∧
-    runRaw [⟨exFragParams, 2, exFragStmts ++ [.ret exFragRet]⟩] 20 0 [0xf0, 0x9] = some [(0x19, 8), (0x9, 4)] := by
+/-- Comparisons (signed and unsigned), constant shifts, `&& || !`:
+`func(a int8, b int8, c uint8) (bool, bool, int8, uint8, bool) {
+  return a < b, uint8(a) < c, a >> 2, c << 3, !(a == b) && (c >= 16 || a != 0) }` -/
+def exOps : Func := ⟨[("a", .int 8), ("b", .int 8), ("c", .uint 8)], 5,
+  [.ret [.bin .lt (.var "a") (.var "b"), .bin .lt (.cast (.uint 8) (.var "a")) (.var "c"),
+         .shift false (.var "a") 2, .shift true (.var "c") 3,
+         .bin .land (.not (.bin .eq (.var "a") (.var "b")))
+           (.bin .lor (.bin .ge (.var "c") (.lit (.uint 8) 16)) (.bin .ne (.var "a") (.lit (.int 8) 0)))]]⟩
+
+/-- if / else over assignments (phi per assigned variable):
+`func(a uint8, b uint8) (uint8, uint8) { var x uint8; var y uint8 = b;
+  if a < b { x = a } else { x = b; y = y + 1 }; return x, y }` -/
+def exIf : Func := ⟨[("a", .uint 8), ("b", .uint 8)], 2,
+  [.decl "x" (.uint 8) none, .decl "y" (.uint 8) (some (.var "b")),
+   .ifte (.bin .lt (.var "a") (.var "b")) [.assign [⟨"x", []⟩] (.var "a")]
+     [.assign [⟨"x", []⟩] (.var "b"), .assign [⟨"y", []⟩] (.bin .add (.var "y") (.lit (.uint 8) 1))],
+   .ret [.var "x", .var "y"]]⟩
+
+/-- Early `return` inside `if`, nested (cf. `C03_early_return_elim`):
+`func(a uint8, b bool) uint8 { if a > 10 { return a }; if a > 5 { if b { return 1 }; a = a + 1 }; return a * 2 }` -/
+def exEarly : Func := ⟨[("a", .uint 8), ("b", .bool)], 1,
+  [.ifte (.bin .gt (.var "a") (.lit (.uint 8) 10)) [.ret [.var "a"]] [],
+   .ifte (.bin .gt (.var "a") (.lit (.uint 8) 5))
+     [.ifte (.var "b") [.ret [.lit (.uint 8) 1]] [], .assign [⟨"a", []⟩] (.bin .add (.var "a") (.lit (.uint 8) 1))] [],
+   .ret [.bin .mul (.var "a") (.lit (.uint 8) 2)]]⟩
+
+/-- `for` with constant bounds, unrolled, loop constant as operand, `return` in the body (cf. `C03_for_unroll`):
+`func(a uint8) uint8 { var s uint8; for i := 0; i < 4; i++ { s = s + a * uint8(i); if s > 100 { return s } };
+  return s + 1 }` -/
+def exFor : Func := ⟨[("a", .uint 8)], 1,
+  [.decl "s" (.uint 8) none,
+   .for "i" 0 .lt 4 1
+     [.assign [⟨"s", []⟩] (.bin .add (.var "s") (.bin .mul (.var "a") (.cast (.uint 8) (.var "i")))),
+      .ifte (.bin .gt (.var "s") (.lit (.uint 8) 100)) [.ret [.var "s"]] []],
+   .ret [.bin .add (.var "s") (.lit (.uint 8) 1)]]⟩
+
+/-- `/ %` with a non-zero divisor: `func(a int8, b int8) (int8, int8) { return a / (b | 1), a % (b | 1) }` -/
+def exDiv : Func := ⟨[("a", .int 8), ("b", .int 8)], 2,
+  [.ret [.bin .div (.var "a") (.bin .bor (.var "b") (.lit (.int 8) 1)),
+         .bin .mod (.var "a") (.bin .bor (.var "b") (.lit (.int 8) 1))]]⟩
+
+/-- `lower` succeeds on the examples (number of SSA steps). -/
+theorem C03_ssa_lower_examples_in_fragment :
+    ([exFrag, exLit, exOps, exIf, exEarly, exFor, exDiv].map fun fn => (Ssa.lower 40 fn).map (·.2.length)) =
+      [some 11, some 10, some 17, some 14, some 13, some 28, some 7] ∧
+    ([exFrag, exLit, exOps, exIf, exEarly, exFor, exDiv].map fun fn => Ssa.noDivB fn.body) =
+      [true, true, true, true, true, true, false] := by
   refine ⟨?_, ?_⟩ <;> decide +kernel
+
+theorem C03_ssa_lower_ex_straight : bothSem exFrag [0xf0, 0x9] = (some [(0x19, 8), (0x9, 4)], some [(0x19, 8), (0x9, 4)]) := by
+  decide +kernel
+
+theorem C03_ssa_lower_ex_literals :
+    bothSem exLit [100, 3] = (some [(240, 8), (254, 8), (1, 1)], some [(240, 8), (254, 8), (1, 1)]) := by
+  decide +kernel
+
+/-- a = -16, b = 3, c = 200: `a < b`, not `uint8(a) < c`, `a >> 2 = -4`, `c << 3 = 64`. -/
+theorem C03_ssa_lower_ex_ops :
+    bothSem exOps [0xf0, 3, 200] =
+      (some [(1, 1), (0, 1), (252, 8), (64, 8), (1, 1)], some [(1, 1), (0, 1), (252, 8), (64, 8), (1, 1)]) := by
+  decide +kernel
+
+theorem C03_ssa_lower_ex_if :
+    bothSem exIf [7, 9] = (some [(7, 8), (9, 8)], some [(7, 8), (9, 8)]) ∧
+    bothSem exIf [9, 7] = (some [(7, 8), (8, 8)], some [(7, 8), (8, 8)]) := by
+  refine ⟨?_, ?_⟩ <;> decide +kernel
+
+/-- All four paths: first return, nested return, fall through the inner `if`, fall through both. -/
+theorem C03_ssa_lower_ex_early_return :
+    bothSem exEarly [20, 0] = (some [(20, 8)], some [(20, 8)]) ∧
+    bothSem exEarly [7, 1] = (some [(1, 8)], some [(1, 8)]) ∧
+    bothSem exEarly [7, 0] = (some [(16, 8)], some [(16, 8)]) ∧
+    bothSem exEarly [3, 1] = (some [(6, 8)], some [(6, 8)]) := by
+  refine ⟨?_, ?_, ?_, ?_⟩ <;> decide +kernel
+
+/-- a = 10: all four iterations, `s + 1 = 61`; a = 30: `return s` in the fourth iteration (180). -/
+theorem C03_ssa_lower_ex_for :
+    bothSem exFor [10] = (some [(61, 8)], some [(61, 8)]) ∧
+    bothSem exFor [30] = (some [(180, 8)], some [(180, 8)]) := by
+  refine ⟨?_, ?_⟩ <;> decide +kernel
+
+/-- -43 / 5 = -8, |-43| mod 5 = 3;  43 / -3 = -14, 43 mod |-3| = 1. -/
+theorem C03_ssa_lower_ex_div :
+    bothSem exDiv [0xd5, 4] = (some [(248, 8), (3, 8)], some [(248, 8), (3, 8)]) ∧
+    bothSem exDiv [43, 0xfc] = (some [(242, 8), (1, 8)], some [(242, 8), (1, 8)]) := by
+  refine ⟨?_, ?_⟩ <;> decide +kernel
+
+/-- The excluded deviations are really outside the fragment: `uint8(a)` for
+`a int4` (C03-cast-int-to-wider-uint), a re-declaration in an inner block
+(C03-inner-block-redeclaration), `a & 0xffffffff` at int40
+(C03-const-signed-widening), a signed literal out of range. -/
+theorem C03_ssa_lower_excludes_deviations :
+    Ssa.lower 40 ⟨[("a", .int 4)], 1, [.ret [.cast (.uint 8) (.var "a")]]⟩ = none ∧
+    Ssa.lower 40 ⟨[("a", .int 4), ("b", .bool)], 1,
+      [.decl "q" (.int 4) (some (.var "a")),
+       .ifte (.var "b") [.decl "q" (.int 4) (some (.bin .add (.var "a") (.var "a")))] [], .ret [.var "q"]]⟩ = none ∧
+    Ssa.lower 40 ⟨[("a", .int 40)], 1, [.ret [.bin .band (.var "a") (.lit (.int 40) 0xffffffff)]]⟩ = none ∧
+    Ssa.lower 40 ⟨[("a", .int 8)], 1, [.ret [.bin .add (.var "a") (.lit (.int 8) 200)]]⟩ = none := by
+  refine ⟨?_, ?_, ?_, ?_⟩ <;> decide +kernel
 
 /-! ### Fuel is irrelevant
 
